@@ -77,7 +77,8 @@ Definition case_ok_with (spec : config -> validator -> N -> N -> outcome) (c : c
       Forall2 outcome_equiv (map (fun v => spec cfg v (c_fbfee c) (c_fbgas c)) (c_vals c)) (c_out1 c) /\
       Forall2 outcome_equiv (c_out1 c) (c_shown c) /\
       c_ok2 c = true /\
-      Forall2 outcome_equiv (c_out1 c) (c_out2 c)
+      Forall2 outcome_equiv (c_out1 c) (c_out2 c) /\
+      (exists j cfg', c_marshalled c = Some j /\ unmarshal j = Some cfg' /\ config_eqb cfg cfg' = true)
   end.
 
 Definition case_ok (c : case) : Prop :=
@@ -87,7 +88,12 @@ Lemma P_with_sound : forall spec c, P_with spec c = true -> case_ok_with spec c.
 Proof.
   intros spec c H. unfold P_with in H. unfold case_ok_with. destruct (unmarshal (c_doc c)) as [cfg|].
   - repeat (apply andb_true_iff in H as [H ?]).
-    repeat split; try assumption; apply outcomes_eqb_sound; assumption.
+    match goal with E : same_meaning _ _ = true |- _ => rename E into Hm end.
+    unfold same_meaning in Hm.
+    destruct (c_marshalled c) as [j|]; [|discriminate].
+    destruct (unmarshal j) as [cfg'|] eqn:Ej; [|discriminate].
+    repeat split; try assumption; try (apply outcomes_eqb_sound; assumption).
+    exists j, cfg'. repeat split; assumption.
   - apply negb_true_iff, H.
 Qed.
 
